@@ -76,13 +76,16 @@ func (c *CacheCase) build() []*mocrelay.Event {
 		}
 		sp := c.Events[i]
 		tags := append([][]string{}, sp.Tags...)
-		for _, r := range sp.Refs {
+		for ri, r := range sp.Refs {
 			var val string
 			switch {
 			case r.Bogus && r.Tag == "e":
-				val = fmt.Sprintf("%064x", 0xdead0000+i)
+				// a reference that names nothing: a well-formed id of no event, or a
+				// value that is no id at all (other references of the same request
+				// must work all the same)
+				val = []string{fmt.Sprintf("%064x", 0xdead0000+i), "note1qqqsyqcyq5rqwzqfpg9scrgwpugpzysn", "abc", fmt.Sprintf("%064X", 0xdead0000+i), ""}[(i+ri)%5]
 			case r.Bogus:
-				val = fmt.Sprintf("30000:%s:nonexistent", ref.Authors[3].Pubkey)
+				val = []string{fmt.Sprintf("30000:%s:nonexistent", ref.Authors[3].Pubkey), "not-an-address", "30000:zz:x", "30000", ""}[(i+ri)%5]
 			case depth > 8 || r.Target < 0 || r.Target >= len(c.Events) || r.Target == i:
 				continue
 			case r.Tag == "e":
